@@ -208,7 +208,7 @@ where
 		}
 	}
 
-	fn equals(&self, other: &Self) -> bool
+	pub fn equals(&self, other: &Self) -> bool
 	{
 		match self
 		{
